@@ -301,6 +301,15 @@ pub fn spaces(tier: &str, _seed: u64) -> Vec<Box<dyn Space>> {
                 obj_scales: vec![1.0],
             }));
         }
+        if l.iter().any(|c| matches!(c, SOC(k) if *k > 1)) && li != 7 {
+            // second-order cones with a zero tail: slack and step of that block are collinear
+            v.push(Box::new(Traj {
+                src: Planted::new(l.clone(), n, s0.clone(), Judge::C04, if thorough { 1 } else { 0 }, vec![5], "default").with_zero_tail_soc(),
+                step_rules: rules.clone(),
+                kmax: if thorough { 60 } else { 25 },
+                obj_scales: vec![1.0],
+            }));
+        }
         let nonsym = l.iter().any(|c| matches!(c, Exp | Pow(_) | GenPow(_, _)));
         let mut rules_l = rules.clone();
         if nonsym {
